@@ -132,6 +132,113 @@ theorem setitem_unref {c : Ctr} {f : Nat → Nat} {m : Nat} (item : Item) (id : 
     simp only [Ctr.rem]; omega
   exact inv_setCh_unref id xs hz (fun x hxm => wfItem_of_len (hx x hxm) (by rw [ss.1]; exact Nat.le_refl _)) i1
 
+theorem setitem_tail_inv {H0 : Heap} {w0 : W} (i : Int) (item : Item)
+    (i0 : InvW w0 (fun j => rest j + cnt j [item]) (n + 1)) (hacy : Acyclic H0 → Acyclic w0.c.heap)
+    (hkey : ∀ k id r, w0.st = k :: .map id :: r → k = .prim) :
+    ∀ out, setitemTail i item w0 = some out → PostOut H0 rest n out := by
+  intro out h
+  simp only [setitemTail] at h
+  cases hp1 : w0.pop with
+  | none => simp [hp1] at h
+  | some r1 =>
+    obtain ⟨key, w1⟩ := r1
+    simp only [hp1] at h
+    obtain ⟨i1, s1, _, hst1⟩ := pop_inv i0 hp1
+    cases hp2 : w1.pop with
+    | none => simp [hp2] at h
+    | some r2 =>
+      obtain ⟨obj, w2⟩ := r2
+      simp only [hp2] at h
+      obtain ⟨i2, s2, _, hst2⟩ := pop_inv i1 hp2
+      have hss : SameShape w0.c.heap w2.c.heap := s1.trans s2
+      have hitem : WfItem w2.c.heap item := by
+        intro d hd
+        exact i2.valid (d := d) (by simp [cnt_cons, hd]; omega)
+      -- the invariant with the item still in hand
+      have i2' : InvC w2.c (fun j => (cnt j w2.st + rest j) + cnt j [item]) ((w2.st.length + n) + 1) :=
+        i2.congr (by intro j; simp only []; omega) (by omega)
+      have throwCase : Post H0 ({ w2 with c := w2.c.rem item } : W) rest n :=
+        post_of_inv (inv_rem item i2').1
+      have seqCase : ∀ id, (if i < 0 then some (Outcome.throw { w2 with c := w2.c.rem item })
+            else match (chOf w2.c.heap id)[i.toNat]? with
+              | none => none
+              | some old =>
+                okW ((if rcOf w2.c.heap id ≠ 0 then ({ w2 with c := w2.c.rem old } : W) else { w2 with c := w2.c.rem item }).setHeap
+                  (setCh (if rcOf w2.c.heap id ≠ 0 then ({ w2 with c := w2.c.rem old } : W) else { w2 with c := w2.c.rem item }).c.heap id
+                    (listSet (chOf w2.c.heap id) i.toNat item)))) = some out → PostOut H0 rest n out := by
+        intro id h
+        by_cases hi : i < 0
+        · simp only [hi, if_true, Option.some.injEq] at h
+          rw [← h]; exact throwCase
+        · simp only [hi, if_false] at h
+          cases hg : (chOf w2.c.heap id)[i.toNat]? with
+          | none => simp [hg] at h
+          | some old =>
+            simp only [hg, okW, Option.some.injEq] at h
+            rw [← h]
+            have hvalid : ∀ x ∈ listSet (chOf w2.c.heap id) i.toNat item, WfItem w2.c.heap x := by
+              intro x hx
+              rcases List.mem_or_eq_of_mem_set hx with h1 | h1
+              · exact chOf_valid i2 id x h1
+              · rw [h1]; exact hitem
+            by_cases hr : rcOf w2.c.heap id = 0
+            · simp only [hr, ne_eq, not_true_eq_false, if_false, W.setHeap]
+              exact post_of_inv (setitem_unref item id _ i2' hr hvalid)
+            · simp only [ne_eq, hr, not_false_eq_true, if_true, W.setHeap]
+              obtain ⟨lk, ilk, hac⟩ := setchild_core item old id i.toNat i2' hg hr
+              refine ⟨lk, ilk.congr (by intro j; simp only []; omega) (by simp only []; omega), fun ha => hac (acyclic_of_sameShape' hss (hacy ha))⟩
+      cases obj with
+      | arr id => exact seqCase id h
+      | str id => exact seqCase id h
+      | prim =>
+        simp only at h
+        by_cases hi : i < 0
+        · simp only [hi, if_true, Option.some.injEq] at h
+          rw [← h]; exact throwCase
+        · simp only [hi, if_false, okW, Option.some.injEq] at h
+          rw [← h]; exact throwCase
+      | map id =>
+        have hkp : key = .prim := hkey key id w2.st (by rw [hst1, hst2])
+        simp only at h
+        by_cases hi : i < 0
+        · simp only [hi, if_true, okW, Option.some.injEq] at h
+          rw [← h]
+          have hvalid : ∀ x ∈ chOf w2.c.heap id ++ [key, item], WfItem w2.c.heap x := by
+            intro x hx
+            rcases List.mem_append.1 hx with h1 | h1
+            · exact chOf_valid i2 id x h1
+            · simp only [List.mem_cons, List.not_mem_nil, or_false] at h1
+              rcases h1 with rfl | rfl
+              · rw [hkp]; exact wfItem_prim _
+              · exact hitem
+          by_cases hr : rcOf w2.c.heap id = 0
+          · simp only [hr, ne_eq, not_true_eq_false, if_false, W.setHeap]
+            exact post_of_inv (setitem_unref item id _ i2' hr hvalid)
+          · simp only [ne_eq, hr, not_false_eq_true, if_true, W.setHeap]
+            apply post_of_inv
+            rw [hkp, add_prim w2.c .prim rfl]
+            have i3 : InvC { w2.c with refs := w2.c.refs + 1 } (fun j => (cnt j w2.st + rest j) + cnt j [item]) ((w2.st.length + n) + 2) :=
+              ⟨i2'.wf, i2'.rc, by have := i2'.refs; simp only at this ⊢; push_cast at this ⊢; omega⟩
+            exact inv_setCh_gen (c := { w2.c with refs := w2.c.refs + 1 }) id _ hr (by rw [← hkp]; exact hvalid) i3
+              (by intro j; simp [cnt_cons, Item.cid]; omega) (by simp; omega)
+        · simp only [hi, if_false] at h
+          cases hg : (chOf w2.c.heap id)[2 * i.toNat + 1]? with
+          | none => simp [hg] at h
+          | some old =>
+            simp only [hg, okW, Option.some.injEq] at h
+            rw [← h]
+            have hvalid : ∀ x ∈ listSet (chOf w2.c.heap id) (2 * i.toNat + 1) item, WfItem w2.c.heap x := by
+              intro x hx
+              rcases List.mem_or_eq_of_mem_set hx with h1 | h1
+              · exact chOf_valid i2 id x h1
+              · rw [h1]; exact hitem
+            by_cases hr : rcOf w2.c.heap id = 0
+            · simp only [hr, ne_eq, not_true_eq_false, if_false, W.setHeap]
+              exact post_of_inv (setitem_unref item id _ i2' hr hvalid)
+            · simp only [ne_eq, hr, not_false_eq_true, if_true, W.setHeap]
+              obtain ⟨lk, ilk, hac⟩ := setchild_core item old id (2 * i.toNat + 1) i2' hg hr
+              refine ⟨lk, ilk.congr (by intro j; simp only []; omega) (by simp only []; omega), fun ha => hac (acyclic_of_sameShape' hss (hacy ha))⟩
+
 theorem setitem_inv {w : W} (i : Int) (inv : InvW w rest n) (hns : ∀ id, w.st.head? ≠ some (.str id))
     (hkey : ∀ a k id r, w.st = a :: k :: .map id :: r → k = .prim) :
     ∀ out, execS (.setitem i) w = some out → PostOut w.c.heap rest n out := by
@@ -147,106 +254,7 @@ theorem setitem_inv {w : W} (i : Int) (inv : InvW w rest n) (hns : ∀ id, w.st.
       intro id e; apply hns id; rw [hst0, e]; rfl
     rw [cloneIfStruct_of_not_str w0 item hnsi] at h
     simp only [Bool.false_eq_true, if_false] at h
-    cases hp1 : w0.pop with
-    | none => simp [hp1] at h
-    | some r1 =>
-      obtain ⟨key, w1⟩ := r1
-      simp only [hp1] at h
-      obtain ⟨i1, s1, _, hst1⟩ := pop_inv i0 hp1
-      cases hp2 : w1.pop with
-      | none => simp [hp2] at h
-      | some r2 =>
-        obtain ⟨obj, w2⟩ := r2
-        simp only [hp2] at h
-        obtain ⟨i2, s2, _, hst2⟩ := pop_inv i1 hp2
-        have hss : SameShape w.c.heap w2.c.heap := by rw [← hc0]; exact s1.trans s2
-        have hitem : WfItem w2.c.heap item := by
-          intro d hd
-          exact i2.valid (d := d) (by simp [cnt_cons, hd]; omega)
-        -- the invariant with the item still in hand
-        have i2' : InvC w2.c (fun j => (cnt j w2.st + rest j) + cnt j [item]) ((w2.st.length + n) + 1) :=
-          i2.congr (by intro j; simp only []; omega) (by omega)
-        have throwCase : Post w.c.heap ({ w2 with c := w2.c.rem item } : W) rest n :=
-          post_of_inv (inv_rem item i2').1
-        have seqCase : ∀ id, (if i < 0 then some (Outcome.throw { w2 with c := w2.c.rem item })
-              else match (chOf w2.c.heap id)[i.toNat]? with
-                | none => none
-                | some old =>
-                  okW ((if rcOf w2.c.heap id ≠ 0 then ({ w2 with c := w2.c.rem old } : W) else { w2 with c := w2.c.rem item }).setHeap
-                    (setCh (if rcOf w2.c.heap id ≠ 0 then ({ w2 with c := w2.c.rem old } : W) else { w2 with c := w2.c.rem item }).c.heap id
-                      (listSet (chOf w2.c.heap id) i.toNat item)))) = some out → PostOut w.c.heap rest n out := by
-          intro id h
-          by_cases hi : i < 0
-          · simp only [hi, if_true, Option.some.injEq] at h
-            rw [← h]; exact throwCase
-          · simp only [hi, if_false] at h
-            cases hg : (chOf w2.c.heap id)[i.toNat]? with
-            | none => simp [hg] at h
-            | some old =>
-              simp only [hg, okW, Option.some.injEq] at h
-              rw [← h]
-              have hvalid : ∀ x ∈ listSet (chOf w2.c.heap id) i.toNat item, WfItem w2.c.heap x := by
-                intro x hx
-                rcases List.mem_or_eq_of_mem_set hx with h1 | h1
-                · exact chOf_valid i2 id x h1
-                · rw [h1]; exact hitem
-              by_cases hr : rcOf w2.c.heap id = 0
-              · simp only [hr, ne_eq, not_true_eq_false, if_false, W.setHeap]
-                exact post_of_inv (setitem_unref item id _ i2' hr hvalid)
-              · simp only [ne_eq, hr, not_false_eq_true, if_true, W.setHeap]
-                obtain ⟨lk, ilk, hac⟩ := setchild_core item old id i.toNat i2' hg hr
-                refine ⟨lk, ilk.congr (by intro j; simp only []; omega) (by simp only []; omega), fun ha => hac (acyclic_of_sameShape' hss ha)⟩
-        cases obj with
-        | arr id => exact seqCase id h
-        | str id => exact seqCase id h
-        | prim =>
-          simp only at h
-          by_cases hi : i < 0
-          · simp only [hi, if_true, Option.some.injEq] at h
-            rw [← h]; exact throwCase
-          · simp only [hi, if_false, okW, Option.some.injEq] at h
-            rw [← h]; exact throwCase
-        | map id =>
-          have hkp : key = .prim := hkey item key id w2.st (by rw [hst0, hst1, hst2])
-          simp only at h
-          by_cases hi : i < 0
-          · simp only [hi, if_true, okW, Option.some.injEq] at h
-            rw [← h]
-            have hvalid : ∀ x ∈ chOf w2.c.heap id ++ [key, item], WfItem w2.c.heap x := by
-              intro x hx
-              rcases List.mem_append.1 hx with h1 | h1
-              · exact chOf_valid i2 id x h1
-              · simp only [List.mem_cons, List.not_mem_nil, or_false] at h1
-                rcases h1 with rfl | rfl
-                · rw [hkp]; exact wfItem_prim _
-                · exact hitem
-            by_cases hr : rcOf w2.c.heap id = 0
-            · simp only [hr, ne_eq, not_true_eq_false, if_false, W.setHeap]
-              exact post_of_inv (setitem_unref item id _ i2' hr hvalid)
-            · simp only [ne_eq, hr, not_false_eq_true, if_true, W.setHeap]
-              apply post_of_inv
-              rw [hkp, add_prim w2.c .prim rfl]
-              have i3 : InvC { w2.c with refs := w2.c.refs + 1 } (fun j => (cnt j w2.st + rest j) + cnt j [item]) ((w2.st.length + n) + 2) :=
-                ⟨i2'.wf, i2'.rc, by have := i2'.refs; simp only at this ⊢; push_cast at this ⊢; omega⟩
-              exact inv_setCh_gen (c := { w2.c with refs := w2.c.refs + 1 }) id _ hr (by rw [← hkp]; exact hvalid) i3
-                (by intro j; simp [cnt_cons, Item.cid]; omega) (by simp; omega)
-          · simp only [hi, if_false] at h
-            cases hg : (chOf w2.c.heap id)[2 * i.toNat + 1]? with
-            | none => simp [hg] at h
-            | some old =>
-              simp only [hg, okW, Option.some.injEq] at h
-              rw [← h]
-              have hvalid : ∀ x ∈ listSet (chOf w2.c.heap id) (2 * i.toNat + 1) item, WfItem w2.c.heap x := by
-                intro x hx
-                rcases List.mem_or_eq_of_mem_set hx with h1 | h1
-                · exact chOf_valid i2 id x h1
-                · rw [h1]; exact hitem
-              by_cases hr : rcOf w2.c.heap id = 0
-              · simp only [hr, ne_eq, not_true_eq_false, if_false, W.setHeap]
-                exact post_of_inv (setitem_unref item id _ i2' hr hvalid)
-              · simp only [ne_eq, hr, not_false_eq_true, if_true, W.setHeap]
-                obtain ⟨lk, ilk, hac⟩ := setchild_core item old id (2 * i.toNat + 1) i2' hg hr
-                refine ⟨lk, ilk.congr (by intro j; simp only []; omega) (by simp only []; omega), fun ha => hac (acyclic_of_sameShape' hss ha)⟩
+    exact setitem_tail_inv i item i0 (by rw [hc0]; exact id) (fun k id r hst => hkey item k id r (by rw [hst0, hst])) out h
 
 end NeoModel.VmAcct
 
